@@ -34,8 +34,9 @@
   * An instance is a fresh id plus the factory identity and the values it was built from.
   * Symbols are class identities (`Nat`); `SymRef` keeps whether the reference was written in subscripted form
     (`Query[Node]`), which `_acceptable_symbol` normalises away. LazyDI keys `definitions` by `to_fullyname(symbol)`;
-    symbols are assumed to be importable module-level classes with pairwise different full names (true of every
-    definition in rogw/tranp/app/config.py), so `symbolize`/`loadSymbol` are the identity on ids.
+    symbols have pairwise different full names (`__module__` + `__qualname__`), so `symbolize` is the identity on ids;
+    `loadSymbol` is its inverse for importable module-level classes (every definition in rogw/tranp/app/config.py) and
+    fails for nested classes (ids from `nestedFrom`): LazyDI cannot materialise a definition of a nested class.
   * Resolution recursion carries fuel; exhaustion is `RecursionError` (what CPython raises on a cyclic graph).
 -/
 import Tranp.Str
@@ -70,8 +71,16 @@ def SymRef.accept (r : SymRef) : Nat := r.origin
     class ids they name (see the header). -/
 def symbolize (r : SymRef) : Nat := r.accept
 
-/-- `load_module_path(symbol_path)` for a symbol path (di.py:385), under the same identification. -/
-def loadSymbol (p : Nat) : SymRef := { origin := p }
+/-- symbol ids from here on stand for classes nested in a class or a function (`Reader.Setting`,
+    `make.<locals>.Setting`): their full name is still unique (`__qualname__`), but it is not an import path -/
+def nestedFrom : Nat := 500
+
+def importable (p : Nat) : Bool := p < nestedFrom
+
+/-- `load_module_path(symbol_path)` for a symbol path (di.py:393, module.py:29-32), under the same identification: the
+    path of a nested class names its enclosing scope as the module, `import_module` raises ModuleNotFoundError. -/
+def loadSymbol (p : Nat) : Except Err SymRef :=
+  if importable p then .ok { origin := p } else .error .moduleNotFound
 
 /-- a remaining positional argument of `invoke`: an external value with its run-time class -/
 structure Arg where
@@ -268,10 +277,12 @@ def bindProxy (c : Cont) (p : Nat) : Cont × Except Err Unit :=
   match c.definitions.get? p with
   | none => (c, .error .keyError)
   | some inj =>
-    let sym := loadSymbol p
-    match inj.load with
+    match loadSymbol p with
     | .error e => (c, .error e)
-    | .ok f => c.bind sym f
+    | .ok sym =>
+      match inj.load with
+      | .error e => (c, .error e)
+      | .ok f => c.bind sym f
 
 end Cont
 
@@ -556,6 +567,7 @@ def sResolveWith (rec : SCont → Nat → SymRef → SRes Obj) (c : SCont) (nx :
   match c.ents s with
   | none => (c, nx, .error .valueError)
   | some e =>
+    if e.lazy && !importable s then (c, nx, .error .moduleNotFound) else
     match e.inj.load with
     | .error err => (c, nx, .error err)
     | .ok f =>
